@@ -372,7 +372,7 @@ def check_c11(tier, seed):
         m = Merged()
         for res in run_sharded(binary, args, st, "msan-%s-%s" % (sub, src[2:-2]), nshards=NCPU, env=env, timeout=3000, only=None if sub == "c16" else part):
             m.add(res, None)
-        return ("msan", src, sub, None, 0, m)
+        return ("msan", src, sub, None, 0, m, make_replayer(binary, args, env=env))
     for src, sub, mc in subs:
         work.append(lambda src=src, sub=sub, mc=mc: one_msan(src, sub, mc))
     # (b) paint differential: stack / caller objects painted 0x00 vs 0xA5, at -O3 and -O0
@@ -385,13 +385,13 @@ def check_c11(tier, seed):
         m = Merged()
         for res in run_sharded(binary, args, st, "paint-%s-%s-%s-%d" % (lib.name, sub, src[2:-2], paint), nshards=NCPU, timeout=3000, only=None if sub == "c16" else part):
             m.add(res, None)
-        return ("paint", src, sub, lib, paint, m)
+        return ("paint", src, sub, lib, paint, m, make_replayer(binary, args))
     for lib in (shipped, o0):
         for src, sub, mc in subs:
             for paint in (0, 165):
                 work.append(lambda lib=lib, src=src, sub=sub, mc=mc, paint=paint: one_paint(lib, src, sub, mc, paint))
-    for kind, src, sub, lib, paint, m in run_parallel(work, workers=4):
-        v.handle(m, None)
+    for kind, src, sub, lib, paint, m, rp in run_parallel(work, workers=4):
+        v.handle(m, rp)   # every reported case is re-executed stand-alone before it is believed
         if kind == "msan":
             per["msan/%s/%s" % (src, sub)] = m.evaluations + m.transitions
             merged.evaluations += m.evaluations; merged.transitions += m.transitions; merged.distinct += m.distinct; merged.states += m.states
